@@ -159,3 +159,9 @@ Definition hop_ok (op : hop) : bool :=
   | HAddRight b | HAddLeft b => style_wf b
   | _ => true
   end.
+
+(* ------------------------------------------------------------------ NO_COLOR convention (no-color.org) *)
+(* colour is off when the keyword says so, else exactly when the variable NO_COLOR is PRESENT,
+   whatever its value (empty, "0", ...) *)
+Definition no_color_convention_b (arg : option bool) (present : bool) (got : bool) : bool :=
+  Bool.eqb got (match arg with Some b => b | None => present end).
